@@ -365,12 +365,12 @@ Verify == \E r \in Allowed(K0, blk, orig) \cup Allowed(KC, blk, orig) : VerifyWi
 Mutate(m, st) ==
   /\ (phase = "verified" /\ verdict.v = "ok") \/ phase = "done"
   /\ blk' = Mutated(orig, m, st) /\ mut' = [m |-> m, st |-> st] /\ phase' = "mutated"
-  /\ Log([op |-> "mut", m |-> m, st |-> st])
+  /\ hist' = Append(IF phase = "done" THEN SubSeq(hist, 1, 2) ELSE hist, [op |-> "mut", m |-> m, st |-> st])
   /\ UNCHANGED <<orig, verdict>>
 
-Next == \/ \E p \in Profiles : Format(p)
+Next == \/ (phase = "init" /\ \E p \in Profiles : Format(p))
         \/ Verify
-        \/ \E m \in Muts(orig), st \in Strategies : phase = "verified" /\ Mutate(m, st)
+        \/ (phase = "verified" /\ \E m \in Muts(orig), st \in Strategies : Mutate(m, st))
 Spec == Init /\ [][Next]_vars
 View == <<phase, orig, blk, mut, verdict>>
 Obs == ObsOf(KC, blk)
@@ -413,10 +413,12 @@ MutationRejectedByConsensus == (phase = "done" /\ Hdr(orig) # Hdr(blk) /\ (verdi
 (* the array construction and the level-wise definition agree; lists of equal length never share  *)
 (* a root (so count + root determine the list); lists of different length do (the padding).        *)
 LemmaLists == UNION {[1..n -> {"t1", "t2", "t3"}] : n \in 0..6}
+LemmaRoots == [l \in LemmaLists |-> SemRoot(l)]
 MerkleLemma == phase = "init" =>
-     /\ \A l \in LemmaLists : RootOf(MakeTree(l)) = SemRoot(l)
-     /\ \A l1, l2 \in LemmaLists : (Len(l1) = Len(l2) /\ SemRoot(l1) = SemRoot(l2)) => l1 = l2
+     LET R == LemmaRoots IN
+     /\ \A l \in LemmaLists : RootOf(MakeTree(l)) = R[l]
+     /\ \A l1, l2 \in LemmaLists : (Len(l1) = Len(l2) /\ R[l1] = R[l2]) => l1 = l2
 (* the structural collisions: which pairs share a root although they differ (not an invariant;   *)
 (* TLC reports the padding collision as a counterexample to NoRootCollision)                      *)
-NoRootCollision == phase = "init" => \A l1, l2 \in LemmaLists : SemRoot(l1) = SemRoot(l2) => l1 = l2
+NoRootCollision == phase = "init" => LET R == LemmaRoots IN \A l1, l2 \in LemmaLists : R[l1] = R[l2] => l1 = l2
 =============================================================================
